@@ -82,12 +82,20 @@ def container_rule(repo: Repo, rep, P: str):
                       f"a chunk must be written as exactly id, length, payload ({len(writes)} writes found)", where)
         return
     # id: name[:4] padded with spaces to 4
-    idtxt = norm(writes[0]).replace(" ", "")
-    want_id = f"{name}[:4]+b''*(4-len({name}[:4]))"
-    if idtxt == want_id:
-        rep.ok(f"{P}.R1", construct, norm(writes[0]), "id truncated/padded to exactly 4 bytes")
+    from ..layout import LenEval, Unknown as LenUnknown
+    le = LenEval(repo, None, {})
+    try:
+        iv = le.of(writes[0], None, {name: (0, 10 ** 9)})
+    except (LenUnknown, Exception):
+        iv = None
+    pads = [c.value for c in ast.walk(writes[0]) if isinstance(c, ast.Constant) and isinstance(c.value, bytes) and c.value]
+    if iv == (4, 4) and all(p == b" " for p in pads):
+        rep.ok(f"{P}.R1", construct, norm(writes[0]), "id truncated/padded (with spaces) to exactly 4 bytes, for a name of any length")
+    elif iv is None:
+        rep.inconclusive(f"{P}.R1", construct, norm(writes[0]), "length of the written chunk id not derivable", where)
     else:
-        rep.violation(f"{P}.R1", construct, norm(writes[0]), "the chunk id must be the name cut and space-padded to 4 bytes", where)
+        rep.violation(f"{P}.R1", construct, norm(writes[0]), "the chunk id must be the name cut and space-padded to 4 bytes "
+                      f"(length interval {iv}, padding {pads})", where)
     # length: struct.pack("<I", len(data))
     w1 = writes[1]
     ok = isinstance(w1, ast.Call) and norm(w1.func) in ("struct.pack", "pack") and len(w1.args) == 2
